@@ -243,6 +243,23 @@ func Build(family string, specs []*spec.Spec, opt Options) (*Corpus, error) {
 		if json.Unmarshal(b, &c) == nil && len(c.Designs) == len(specs) {
 			for i, d := range c.Designs {
 				d.Spec = specs[i]
+				// same shape as after a fresh build: the methods excluded by the repack are gone
+				if len(d.Excluded) > 0 {
+					var svcs []*spec.Service
+					for _, svc := range d.Spec.Services {
+						var keep []*spec.Method
+						for _, m := range svc.Methods {
+							if _, bad := d.Excluded[m.Name+" "+featString(m.Feat)]; !bad {
+								keep = append(keep, m)
+							}
+						}
+						svc.Methods = keep
+						if len(keep) > 0 {
+							svcs = append(svcs, svc)
+						}
+					}
+					d.Spec.Services = svcs
+				}
 			}
 			c.Cached = true
 			if c.Driver != "" {
